@@ -690,6 +690,22 @@ def replay(path):
         print("replay: ids are process-wide; run ./check C18 again to re-execute the whole timer trace")
         return 1
     tr = rep["trace"]
+    if rep.get("spec") in ("Trace_Proto", "Trace_Loop"):
+        # a recording of executor events (of the repository's own tests or of a harness round): it cannot be
+        # re-executed in isolation; the recorded events are validated against the specification again
+        d = os.path.join(WORK, "replay")
+        tp = os.path.join(d, "events.ndjson")
+        with open(tp, "w") as f:
+            f.write("\n".join(json.dumps(l) if not isinstance(l, str) else l for l in tr) + "\n")
+        rc, out = tlc(rep["spec"], SIMPLE_CFG.format(consts="CONSTANT Keys = {0}\n"), {"TRACE": tp}, dfs=True, tag="rp")
+        ok = "No error has been found" in out
+        print("replay: the recorded events are", "ACCEPTED" if ok else "REJECTED", "by", rep["spec"],
+              "(run the check again to record the current tree)")
+        return 0 if ok else 1
+    if rep.get("spec") == "Trace_Registry":
+        print(json.dumps(rep.get("first_unmatched"))[:2000])
+        print("replay: the registry histories are generated by the check itself; run ./check C09 (or C02) again")
+        return 1
     head, end = tr[0], tr[-1]
     case = {"name": "replay", "host": head["host"], "progs": head["progs"], "follow": head.get("follow", {}),
             "legacy": head.get("legacy", False), "steps": end.get("steps", [])}
